@@ -221,6 +221,8 @@ def run(ctx, rep):
                         rep.ok("R-ASSUME-CALLERS", ik, "caller is unsafe: obligation stays with the client", cfg=tag)
                     elif _written_before(F, B, b, bi):
                         rep.ok("R-ASSUME-CALLERS", ik, "the caller writes the payload on every path before declaring it initialised", cfg=tag)
+                    elif _ctor_fully_initialises(ctx, tag, F, b):
+                        rep.ok("R-ASSUME-CALLERS", ik, "a slice constructor: every element is written before the re-typing (C06's R-INIT / R-LENFLOW / R-ITERLOOP for this function)", cfg=tag)
                     else:
                         rep.bad("R-ASSUME-CALLERS", ik, "a safe function declares an uninitialised payload initialised: a client could read or drop slots nobody wrote", F.loc(b, t["span"]), tag)
         if seen == 0:
@@ -235,6 +237,40 @@ def run(ctx, rep):
     rep.floor("R-UNINIT-TY", 5, "five uninitialised constructors")
     rep.floor("R-CAST", 5, "five assume_init functions")
     rep.floor("R-INIT", 1, "header write in from_header_and_uninit_slice")
+
+
+def _ctor_fully_initialises(ctx, tag, F, b):
+    """The caller is one of the header-and-slice constructors and C06's constructor rules - run here for that function alone -
+    find every payload field written before the point of re-typing, with the allocation length as the number of elements."""
+    if b.get("name") not in ("from_header_and_slice", "from_header_and_vec", "from_header_and_iter") or F.handle_name((b.get("impl") or {}).get("self_ty", -1)) != "Arc":
+        return False
+
+    class _One:
+        def __init__(self):
+            self.bad_keys = []
+            self.oks = 0
+            self.notes = []
+
+        def ok(self, rule, key, *a, **k):
+            if k.get("cfg") == tag and key.startswith(b["key"]):
+                self.oks += 1
+
+        def bad(self, rule, key, msg, loc=None, cfg=None, detail=None):
+            if cfg == tag and (key.startswith(b["key"]) or rule == "ANCHOR-LOST"):
+                self.bad_keys.append((rule, key))
+
+        def floor(self, *a, **k):
+            pass
+
+        def sample(self, *a, **k):
+            pass
+
+    r = _One()
+    c06.rule_init(ctx, r, only=(b["name"],))
+    c06.rule_lenflow(ctx, r)
+    if b["name"] == "from_header_and_iter":
+        c06.rule_iterloop(ctx, r)
+    return r.oks > 0 and not r.bad_keys
 
 
 def _written_before(F, B, b, assume_bb):
